@@ -291,6 +291,10 @@ let dispatch (op : string) (a : tok list) : string =
   | "sk2int" -> bI (Eddsa.coq_SkToBigInt blake512 (b 0))
   | "public" -> pt (Eddsa.coq_Public blake512 (b 0))
   | "scalarpublic" -> pt (Eddsa.coq_ScalarPublic (i 0))
+  | "scalarseq" ->
+    let s = Eddsa.coq_SkToBigInt blake512 (b 0) in
+    let pk = Eddsa.coq_ScalarPublic s in
+    bI s ^ " " ^ pt pk ^ " " ^ bI s ^ " " ^ pt pk ^ " " ^ bI s
   | "pubroutes" ->
     let s = Eddsa.coq_SkToBigInt blake512 (b 0) in
     let pk = Eddsa.coq_Public blake512 (b 0) in
